@@ -47,7 +47,11 @@ def run_case(darsia, rng, tid, c):
         opts["bregman_update"] = lambda it: it % 3 == 2
     weight = None
     wflat = np.ones(int(np.prod(shape)))
-    if c.get("weight"):
+    if c.get("weight") == "het":      # heterogeneous scalar cell weight in [0.5, 2]
+        warr = 0.5 + 1.5 * np.random.RandomState(c["mseed"]).rand(*shape)
+        weight = darsia.Image(warr.copy(), space_dim=len(shape), dimensions=[h[a] * shape[a] for a in range(len(shape))], scalar=True)
+        wflat = warr.ravel("F").copy()
+    elif c.get("weight"):
         wv = float(c["weight"])
         weight = darsia.Image(np.full(shape, wv), space_dim=len(shape), dimensions=[h[a] * shape[a] for a in range(len(shape))], scalar=True)
         wflat = wflat * wv
@@ -68,6 +72,8 @@ def run_case(darsia, rng, tid, c):
     in_loop_kw = c["method"] == "bregman"   # Bregman's in-loop solves pass reuse_solver=..., the final pressure solve does not
 
     def ls(*a, **k):
+        if state.get("second"):
+            return orig_ls(*a, **k)
         i = calls["n"]
         calls["n"] += 1
         if i > 0 and in_loop_kw and "reuse_solver" not in k and post_fault:
@@ -90,7 +96,7 @@ def run_case(darsia, rng, tid, c):
         return out
 
     def l1(flux):
-        if state["in_solve"]:
+        if state["in_solve"] and not state.get("second"):
             f = np.array(flux, dtype=float, copy=True)
             if not versions or not np.array_equal(versions[-1], f):
                 versions.append(f)
@@ -102,7 +108,8 @@ def run_case(darsia, rng, tid, c):
             r = orig_solve(md)
         finally:
             state["in_solve"] = False
-        state["flat"] = np.array(r[1], dtype=float, copy=True)
+        if not state.get("second"):
+            state["flat"] = np.array(r[1], dtype=float, copy=True)
         return r
 
     w1.linear_solve, w1.l1_dissipation, w1._solve = ls, l1, solve
@@ -173,6 +180,33 @@ def run_case(darsia, rng, tid, c):
     ev.append(dict(base, op="end", raised=0, converged=int(bool(info["converged"])), critmet=int(critmet and not faulted),
                    retver=retver, dexp=exponent(drel), mbexp=mb(uret), linexp=lin(), pinexp=exponent(abs(pin) / pscale),
                    cfexp=cfe, tdexp=tde, earlyexit=int(bool(np.isnan(dist))), niter=int(info["number_iterations"]), ncompleted=ncompleted))
+    if c.get("second"):
+        # the same solver object is used again for another pair of masses: (1) what the first call returned is the caller's and
+        # stays as it was, (2) the second result is what a fresh solver object returns for that pair
+        keys = [k for k in ("flux", "weighted_flux", "pressure", "transport_density", "mass_diff") if isinstance(info.get(k), np.ndarray)]
+        snap = {k: np.array(info[k], copy=True) for k in keys}
+        b1, b2 = random_masses(random.Random(c["mseed"] + 1), shape, "dense")
+        imgb1, imgb2 = make_images(darsia, shape, h, b1, b2)
+        e2 = dict(base, op="second", raised=0, first_unchanged=0, changed=[], freshexp=3)
+        try:
+            state["second"] = True
+            with warnings.catch_warnings():
+                warnings.simplefilter("ignore")
+                with np.errstate(all="ignore"):
+                    d2, info2 = w1(imgb1, imgb2)
+                    opts_f = dict(opts)
+                    wf = cls(darsia.Grid(shape, [float(x) for x in h]), weight, opts_f)
+                    d3, info3 = wf(imgb1, imgb2)
+            e2["changed"] = [k for k in keys if not np.array_equal(snap[k], info[k])]
+            e2["first_unchanged"] = int(not e2["changed"])
+            scale2 = max(1e-300, abs(float(d3)))
+            dev = max(abs(float(d2) - float(d3)) / scale2,
+                      float(np.abs(np.asarray(info2["flux"]) - np.asarray(info3["flux"])).max()) / max(1e-300, float(np.abs(np.asarray(info3["flux"])).max())))
+            e2["freshexp"] = exponent(dev)
+        except Exception as ex:  # noqa
+            e2["raised"] = 1
+            e2["error"] = repr(ex)[:200]
+        ev.append(e2)
     return ev
 
 
@@ -208,7 +242,8 @@ def configs(rng, quick, terminals):
         fault = rng.choice([None] + [f for f in faults if f is not None and f >= 0 and f < num_iter] + (["post", "post"] if method == "bregman" else []))
         out.append({"shape": list(shape), "h": h, "method": method, "l1": rng.choice(l1s), "mob": rng.choice(mobs), "opts": opts,
                     "mass": rng.choice(["dense", "compact", "single"]), "mseed": rng.randrange(10 ** 6), "fault": fault,
-                    "adaptive": method == "bregman" and rng.random() < 0.3, "weight": rng.choice([None, None, 2.0])})
+                    "adaptive": method == "bregman" and rng.random() < 0.3, "weight": rng.choice([None, None, 2.0, "het"]),
+                    "second": fault is None and rng.random() < 0.5})
     # every fault position once for each method on a fixed small case
     for method in ("newton", "bregman"):
         for f in [None] + [x for x in faults if x is not None and 0 <= x < 6]:
@@ -216,6 +251,12 @@ def configs(rng, quick, terminals):
                         "opts": {"num_iter": 6, "formulation": "pressure", "linear_solver": "direct", "L": 1.0 if method == "bregman" else 1e-2,
                                  "tol_residual": 0.0, "tol_increment": 0.0, "tol_distance": 0.0},
                         "mass": "dense", "mseed": 7, "fault": f, "adaptive": False, "weight": None})
+    # weighted problems solved twice with one solver object (constant and heterogeneous cell weights)
+    for method in ("newton", "bregman"):
+        for wgt in (2.0, "het"):
+            out.append({"shape": [4, 3], "h": [0.5, 0.25], "method": method, "l1": rng.choice(l1s), "mob": rng.choice(mobs),
+                        "opts": {"num_iter": 6, "formulation": rng.choice(["full", "pressure"]), "linear_solver": "direct", "L": 1.0 if method == "bregman" else 1e-2},
+                        "mass": "dense", "mseed": rng.randrange(10 ** 6), "fault": None, "adaptive": False, "weight": wgt, "second": True})
     # the step after the loop (Bregman's pressure recovery) fails, after the stopping criteria were met or not
     for adaptive in (False, True):
         for aa in (0, 3):
